@@ -542,6 +542,12 @@ def run(ctx):
     # field) and M (minutes field); expected -(60H + M) for '+', +(60H + M) for '-'
     from sa.poly import Poly
 
+    offset_pat = None
+    for stn in el.node.body:
+        if isinstance(stn, ast.Assign) and isinstance(stn.targets[0], ast.Name) and stn.targets[0].id == "_offset_pattern" \
+                and isinstance(stn.value, ast.Call) and stn.value.args:
+            offset_pat = prog.const(stn.value.args[0], el.module)
+
     def offset_minutes(sign_char):
         env = {}
         signvar = None
@@ -553,6 +559,24 @@ def run(ctx):
                     signvar = names[0]
                     env[names[1]] = ("str", "H")
                     env[names[2]] = ("str", "M")
+            # `a, b, c = match.group(x, y, z)`: groups picked by number or by name (resolved with the pattern's group index)
+            if isinstance(st, ast.Assign) and isinstance(st.targets[0], ast.Tuple) and isinstance(st.value, ast.Call) \
+                    and (dotted(st.value.func) or "").endswith(".group") and len(st.value.args) == len(st.targets[0].elts) == 3 and isinstance(offset_pat, str):
+                import re as _re18
+
+                try:
+                    gi = _re18.compile(offset_pat).groupindex
+                except _re18.error:
+                    gi = {}
+                roles = {1: "sign", 2: "H", 3: "M"}
+                for tgt_, a_ in zip(st.targets[0].elts, st.value.args):
+                    k_ = prog.const(a_, off.module)
+                    idx_ = gi.get(k_) if isinstance(k_, str) else k_ if isinstance(k_, int) else None
+                    role = roles.get(idx_)
+                    if role == "sign":
+                        signvar = tgt_.id
+                    elif role in ("H", "M"):
+                        env[tgt_.id] = ("str", role)
 
         def ev(e):
             if isinstance(e, ast.IfExp) and isinstance(e.test, ast.Compare) and dotted(e.test.left) == signvar \
